@@ -73,7 +73,8 @@ def parse_harness_file(unit):
             if cur["kind"] == "canary":
                 cur["expect"] = "fail"
             cur.setdefault("expect", "pass")
-            cur["timeout"] = int(cur.get("timeout", "300"))
+            # generous limits: a timeout on the unchanged tree under load would be a (false) undecided
+            cur["timeout"] = max(900, 2 * int(cur.get("timeout", "300")))
             continue
         if cur is None:
             continue
